@@ -388,6 +388,19 @@ impl<'w> DocsRun<'w> {
                         }
                     }
                     let _ = names;
+                    // "empty": the table is there again but empty - what an open leaves behind that created the current
+                    // set of tables and was killed before the populate-if-empty migration committed
+                    if op["empty"] == true {
+                        const LATEST: redb::TableDefinition<(&[u8; 32], &[u8; 32]), (u64, &[u8])> = redb::TableDefinition::new("latest-by-author-1");
+                        const BY_KEY: redb::TableDefinition<(&[u8; 32], &[u8], &[u8; 32]), ()> = redb::TableDefinition::new("records-by-key-1");
+                        for n in dropped.iter() {
+                            if n == "latest-by-author-1" {
+                                let _ = tx.open_table(LATEST).expect("create empty heads table");
+                            } else {
+                                let _ = tx.open_table(BY_KEY).expect("create empty by-key table");
+                            }
+                        }
+                    }
                     tx.commit().expect("commit");
                     drop(db);
                 }
@@ -476,7 +489,7 @@ pub fn gen_history(r: &mut Rng, t: &DocTable, len: usize, file: bool, plant: boo
         } else if file && x < 97 {
             json!({"op":"reopen"})
         } else if file {
-            json!({"op":"dropderived","which": *r.pick(&["latest","bykey","both"])})
+            json!({"op":"dropderived","which": *r.pick(&["latest","bykey","both"]), "empty": r.chance(1, 3)})
         } else {
             json!({"op":"open","d":rd})
         };
@@ -553,9 +566,48 @@ pub fn run(w: &World, seed: u64, rng: &mut Rng, schedules: Vec<Value>, n: usize,
         trace.emit(json!({"ev":"Reset","run":i,"seed":seed,"ops":ops,"backend": if *file {"file"} else {"mem"},
                           "ndocs": t.n(), "real": t.real(), "docs": docs0, "hashes": hashes0}));
         sum.add("histories", 1);
-        for op in ops {
-            let fut = run.step(op);
-            let res = rt.block_on(futures_lite::future::FutureExt::catch_unwind(std::panic::AssertUnwindSafe(fut)));
+        // Observing a store commits its open write transaction.  So that behaviour which depends on what is still
+        // uncommitted gets sampled, the store under test runs up to three calls in a row WITHOUT being looked at, while a
+        // shadow store (same code, same history) is observed after every call and lends its observation to the calls the
+        // store under test was not observed after.  Two stores running the same code can only differ here if the code is
+        // sensitive to where commits fall - which no property allows.
+        let spath = path.as_ref().map(|p| p.with_extension("shadow.redb"));
+        if let Some(sp) = &spath {
+            let _ = std::fs::remove_file(sp);
+        }
+        let mut shadow = DocsRun::new(w, spath.clone());
+        let mut pending = 0usize;
+        for (j, op) in ops.iter().enumerate() {
+            let envop = matches!(op["op"].as_str(), Some("plant") | Some("dropderived") | Some("reopen"));
+            let unobserved = !envop && pending < 3 && j + 1 < ops.len() && rng.chance(1, 3);
+            let sh = rt.block_on(futures_lite::future::FutureExt::catch_unwind(std::panic::AssertUnwindSafe(shadow.step(op))));
+            let res = if unobserved {
+                let r = rt.block_on(futures_lite::future::FutureExt::catch_unwind(std::panic::AssertUnwindSafe(run.exec(op))));
+                match (r, sh) {
+                    (Ok(Some(mut ev)), Ok(Some(shev))) => {
+                        pending += 1;
+                        ev["docs"] = shev["docs"].clone();
+                        ev["hashes"] = shev["hashes"].clone();
+                        ev["open"] = json!(run.infos.keys().copied().collect::<Vec<usize>>());
+                        ev["unobserved"] = json!(true);
+                        sum.add("unobserved_calls", 1);
+                        Ok(Some(ev))
+                    }
+                    // the shadow has nothing to lend (it skipped the call or panicked): look at the store itself
+                    (Ok(Some(mut ev)), _) => {
+                        pending = 0;
+                        let (docs, hashes) = run.observe();
+                        ev["docs"] = docs;
+                        ev["hashes"] = hashes;
+                        ev["open"] = json!(run.infos.keys().copied().collect::<Vec<usize>>());
+                        Ok(Some(ev))
+                    }
+                    (r, _) => r,
+                }
+            } else {
+                pending = 0;
+                rt.block_on(futures_lite::future::FutureExt::catch_unwind(std::panic::AssertUnwindSafe(run.step(op))))
+            };
             match res {
                 Ok(Some(ev)) => {
                     sum.add(&format!("ev_{}", ev["ev"].as_str().unwrap()), 1);
@@ -567,6 +619,10 @@ pub fn run(w: &World, seed: u64, rng: &mut Rng, schedules: Vec<Value>, n: usize,
                     break;
                 }
             }
+        }
+        drop(shadow);
+        if let Some(sp) = spath {
+            let _ = std::fs::remove_file(sp);
         }
         drop(run);
         if let Some(p) = path {
